@@ -845,12 +845,19 @@ class LocalArchiveUploader:
                 # Cannot use os.rename() because it will unconditionally
                 # replace an existing file. Instead we link the file at the
                 # destination and unlink the temporary file.
+                published = False
                 try:
                     os.link(self.tmp.name, self.destination)
+                    published = True
                 except FileExistsError:
                     pass # lost race
                 finally:
-                    os.unlink(self.tmp.name)
+                    try:
+                        os.unlink(self.tmp.name)
+                    except OSError:
+                        # Do not report a published artifact as failed upload
+                        # just because the temporary name could not be removed.
+                        if not published: raise
             else:
                 try:
                     os.rename(self.tmp.name, self.destination)
